@@ -92,7 +92,10 @@ def run(run, binfo):
     singles = ['(', ')', 'and', 'or', 'not', 'AND', 'Or', 'nOt', '"abc"', "'abc'", '""', "''", 'abc',
                'a:', ':b', ':', '@', '!', '@@', '!!', 'role', 'rule', '%(x)s', '()', ')(', '((', '))',
                "'a:b'", '"a b"', 'not)', '(not', 'x' * 50, 'not ""', "not ''", '@ or ""', "@ and not ''", '(not "")',
-               '"" or @', "'' and @", 'not not ""', '"" and ""', 'not "x"', "@ or 'x'", 'not ("")', '("") or @']
+               '"" or @', "'' and @", 'not not ""', '"" and ""', 'not "x"', "@ or 'x'", 'not ("")', '("") or @',
+               # look-alikes of the constants and keywords are ordinary words (no colon: deny)
+               '\uff20', '\ufe6b', '\uff01', 'not \uff01', '\uff20 or role:nobody', '\uff08@\uff09', '\uff21\uff2e\uff24',
+               '@\u200b', '\u200b@', '@\ufeff', '\uff52\uff4f\uff4c\uff45:admin', '@ \uff4f\uff52 @']
     texts += singles
     # corruptions of valid rules
     ncorr = 1500 if tier == 'quick' else 30000
@@ -125,6 +128,19 @@ def run(run, binfo):
                           {'kind': 'failing-input', 'suite': 'spec-c02', 'input': {'value': t, 'how': 'from_dict'},
                            'observed': i})
             continue
+        word = t.strip()
+        if sent and word and not any(ch.isspace() for ch in word) and ':' not in word and \
+                word.strip('()') == word and word not in ('@', '!') and word.lower() not in ('and', 'or', 'not') and \
+                not (len(word) >= 2 and word[0] == word[-1] and word[0] in '"\''):
+            # a single check that is not of the form kind:match behaves as '!'
+            g = grants(t, 'from_dict')
+            if g[0] == 'decisions' and not any(g[1]):
+                g = grants(t, 'from_dict+default')
+            if g[0] != 'decisions' or any(g[1]):
+                run.violation('bad-leaf-grants', 'the one-word rule %r (no colon) does not deny: %r' % (t, g),
+                              {'kind': 'failing-input', 'suite': 'spec-c02',
+                               'input': {'value': t, 'how': 'from_dict'}, 'expected': 'deny for all credentials',
+                               'observed': g})
         if not sent:
             nonsent += 1
             if any('Σ' in t or 'İ' in t for _ in [0]) and False:
